@@ -342,6 +342,44 @@ func init() {
 			sweep(c, r, s, "opreturn")
 		}
 
+		c.Phase("asm-lookalike-pushes") // multi-byte pushes whose hex text could be read as something else: decimal numbers, zero runs, base-prefixed or floating-point literals
+		n = 0
+		{
+			var datas [][]byte
+			for _, L := range []int{2, 3, 4, 8, 20, 33, 75, 76, 255, 256} {
+				for _, last := range []byte{0x00, 0x01, 0x07, 0x09, 0x10, 0x16, 0x17, 0x99} {
+					d := make([]byte, L)
+					d[L-1] = last
+					datas = append(datas, d)
+				}
+				r := c.Rand(uint64(L))
+				bcd := make([]byte, L)
+				for i := range bcd {
+					bcd[i] = byte(r.Intn(10))<<4 | byte(r.Intn(10))
+				}
+				datas = append(datas, bcd, append([]byte{0x10}, bcd[1:]...), append([]byte{0x00}, bcd[1:]...))
+			}
+			datas = append(datas, []byte{0x0b, 0x01}, []byte{0x0e, 0x10}, []byte{0x1e, 0x05}, []byte{0x0b, 0x10, 0x11}, []byte{0x00, 0x0e, 0x12}, []byte{0x12, 0x34}, []byte{0x00, 0x16}, []byte{0x00, 0x10},
+				[]byte{0x16, 0x00}, []byte{0xde, 0xad}, []byte("OP_1"), []byte("0 1"), []byte{0x20, 0x20})
+			for _, d := range datas {
+				for ctx := 0; ctx < 3; ctx++ {
+					if !next() {
+						continue
+					}
+					push := refcodec.MinimalPush(d)
+					var sc []byte
+					switch ctx {
+					case 0:
+						sc = append([]byte{0x76, 0xa9}, append(push, 0x88, 0xac)...)
+					case 1:
+						sc = append(append([]byte{}, push...), 0x75)
+					default:
+						sc = append(append(append([]byte{0x51}, push...), push...), 0x87)
+					}
+					script(c, &c13Script{Script: sc, Class: "asm-lookalike-push"})
+				}
+			}
+		}
 		c.Phase("opreturn-first-data-byte") // every value of the first byte after a top-level OP_RETURN, four prefixes, three tails
 		n = 0
 		for b := 0; b < 256; b++ {
@@ -500,6 +538,27 @@ func c13JudgeItems(c *mon.Ctx, in *c13Items) {
 		if len(it) == 0 {
 			return // outside the statement ("non-empty data items")
 		}
+	}
+	// the items are handed over as sub-slices of one buffer (guard bytes between
+	// them, capacity running on): encoders read their arguments, nothing more
+	{
+		var arena []byte
+		offs := make([]int, len(items))
+		for i, it := range items {
+			arena = append(arena, 0xC5, 0xC6, 0xC7)
+			offs[i] = len(arena)
+			arena = append(arena, it...)
+		}
+		arena = append(arena, 0xC8, 0xC9)
+		arena0 := append([]byte{}, arena...)
+		for i := range items {
+			items[i] = arena[offs[i] : offs[i]+len(items[i])]
+		}
+		defer func() {
+			if !bytes.Equal(arena, arena0) {
+				c.Violationf("C13:argument-memory-modified", "the buffer holding the items handed to the encoders (lens %v) was modified", in.Lens)
+			}
+		}()
 	}
 	want := refcodec.EncodeItems(items)
 	var enc []byte
